@@ -362,6 +362,13 @@ func genC13Trees(r *rand.Rand, n int) []Case {
 				t["tests/regression/tests/REQUEST-920-X/"+nm] = []byte("  - test_id: 7\n  - test_title: 920100-9\n\n\n")
 			}
 		}
+		// hidden entries next to the test files and above them (an editor's swap file, a desktop's metadata, a placeholder,
+		// an IDE's directory): they are no test files and take nothing away from the ones that are
+		for _, nm := range []string{"REQUEST-920-X/.920100.yaml.swp", "REQUEST-920-X/.DS_Store", ".gitkeep", ".idea/workspace.xml", "REQUEST-920-X/.hidden/920199.yaml"} {
+			if chance(r, 0.5) {
+				t["tests/regression/tests/"+nm] = []byte("  - test_id: 7\n  - test_id: 7\n")
+			}
+		}
 		files := treeArgs(t)
 		ops := []Op{{"cli.renumberAll", append([][]byte{[]byte("0")}, files...)}, {"cli.renumberAll", append([][]byte{[]byte("1")}, files...)}}
 		// the same through the invocation model: --all with and without --check under every output format (the format is
